@@ -13,7 +13,7 @@ start failed, and that they are stopped).
 Generated: C01 circuits + recorder probes + events and event filters given by object, by
 name and by '_not_NAME' shortcut (Event destinations, IfOutput control blocks,
 DataEdit.add_output sources) + an optional never connected FuncBlock; explicit finalize()
-before the start in 30 %; one invalid construction per run in 30 % (56 variants of: unknown
+before the start in 30 %; one invalid construction per run in 30 % (62 variants of: unknown
 name in connect/event/filter, block of another circuit, CBlock as event destination, wrong
 signature of Not/Compare/Override, '_not__x', unknown '_not_NAME', duplicate name, second
 connect(), empty connect(), never connected, function not matching the inputs, UNDEF
@@ -65,6 +65,18 @@ Additions after the third seeded-change round (seeded/C15-s7, s8, s9), all for t
    fail again), start (must fail), or add the missing block and finalize()/start (everything
    must be resolved: Event.dest, filter control blocks, structure) (caught: the resolver
    forgets the failing and all later registrations, s8).
+
+Addition after the fourth round (seeded/C15-s11): references by name created BETWEEN an
+explicit finalize() and the start (creating Event / filter objects is not a modification of
+the circuit). 60 % of the explicitly finalized runs create 1-3 Event objects to recorders
+by name with IfOutput / add_output filters by object, name or existing shortcut; from the
+first step on their dest / control blocks must be the blocks of those names (same structure
+checkpoints as the other events), and the driver sends them from application code while
+running: the result of send(), the number of deliveries and the delivered add_output values
+must agree with the named blocks. Invalid class 'late_unknown' (6 variants: unknown event
+destination / IfOutput / add_output / NotIfInitialized name, CBlock as destination or as
+NotIfInitialized control block, all created after finalize()): the start must fail before
+any block is started. Caught: run_forever() no longer runs the resolver itself (s11).
 
 Findings on the pinned tree (genuine, own signatures):
  * C15/names-unresolved/after-explicit-finalize and
@@ -164,7 +176,9 @@ REACH_EXPECTED = ['explicit_finalize', 'shortcut_shared', 'shortcut_in_filter_on
                   'second_stop_request_during_cleanup_of_failed_start',
                   'start_failed_after_async_block_started',
                   'start_failed_before_async_block_started',
-                  'second_finalize_failed_again', 'missing_block_added_after_failed_finalize']
+                  'second_finalize_failed_again', 'missing_block_added_after_failed_finalize',
+                  'event_created_after_explicit_finalize',
+                  'invalid_reference_created_after_explicit_finalize']
 ASSUMPTIONS = [
     "which of 'construction', 'explicit finalize()' or 'start' reports an invalid reference is "
     "left free (the property says 'construction or the start')",
@@ -197,14 +211,20 @@ INVALID = [('unknown_connect', 0), ('unknown_connect', 1), ('unknown_connect', 2
            ('sig_override', 4), ('sig_override', 5), ('sig_override', 6),
            ('sig_custom', 0), ('sig_custom', 1), ('sig_custom', 2), ('sig_custom', 3),
            ('sig_custom', 4), ('sig_custom', 5), ('sig_custom', 6), ('sig_custom', 7),
-           ('sig_custom', 8)]
+           ('sig_custom', 8),
+           # references by name created AFTER an explicit finalize() (creating events and
+           # filters is not a modification of the circuit): resolved by the start
+           ('late_unknown', 0), ('late_unknown', 1), ('late_unknown', 2), ('late_unknown', 3),
+           ('late_unknown', 4), ('late_unknown', 5)]
 # where HEAD reports the invalid reference, pinned for the classes where the documentation /
 # the resolver contract says so: a wrong block *object* is refused by the constructor
 # (Circuit.resolve_name: "If the reference is a block object already ... just check the type"),
 # a name or shortcut by the resolver, i.e. before any block is started
 PIN_CONSTRUCTION = {('wrong_kind_filter', 1), ('wrong_kind_filter', 4)}
 PIN_NOTHING_STARTED = {('wrong_kind_filter', 0), ('wrong_kind_filter', 2),
-                       ('wrong_kind_filter', 3), ('wrong_kind_filter', 5)}
+                       ('wrong_kind_filter', 3), ('wrong_kind_filter', 5),
+                       ('late_unknown', 0), ('late_unknown', 1), ('late_unknown', 2),
+                       ('late_unknown', 3), ('late_unknown', 4), ('late_unknown', 5)}
 NEEDS_ALL_BLOCKS = {'dup_name', 'second_connect', 'wrong_kind_filter'}
 
 # a user CBlock with a declared input signature (docs/new_cblocks.rst, check_signature)
@@ -316,7 +336,33 @@ def gen(rng, tier, index=0):
             at = None       # needs the original / the referenced block object
         inv = {'cls': invalid[0], 'variant': invalid[1], 'at': at,
                'a': rng.choice(names), 'b': rng.choice(names), 'c': rng.choice(cbn)}
+    late = []
+    if invalid is not None and invalid[0] == 'late_unknown':
+        explicit = True
+    if explicit and rng.random() < 0.6:
+        # Event objects created by the application between finalize() and the start
+        targets = [s['name'] for s in spec['sources']] + [c['name'] for c in spec['cblocks']]
+        shortcut_ok = sorted({ref[1] for cb in spec['cblocks'] for _n, _i, ref in iter_refs(cb)
+                              if ref[0] == '!'})
+        for k in range(rng.choice([1, 1, 2, 3])):
+            filters = []
+            for _ in range(rng.choice([0, 1, 1, 2])):
+                style = rng.choice(['o', 'n', 'n', '!'])
+                name = rng.choice(targets)
+                if style == '!':
+                    if not shortcut_ok:
+                        style = 'n'
+                    else:
+                        name = rng.choice(shortcut_ok)      # the inverter exists already
+                if rng.random() < 0.5:
+                    filters.append(['ifo', style, name])
+                else:
+                    filters.append(['addout', f"k{len(filters)}", style, name])
+            late.append({'dest': rng.choice(spec['recorders']), 'etype': f"L{k}",
+                         'src': rng.choice(targets), 'filters': filters,
+                         'k': rng.randrange(n_ops), 'value': rng.choice([0, 1, 7])})
     plan = {'knobs': knobs, 'spec': spec, 'ops': ops, 'pre': pre, 'explicit_finalize': explicit,
+            'late_events': late,
             'storage': rng.random() < 0.5, 'invalid': inv, 'mods': mods,
             'second_stop': None, 'after_failed_finalize': 'stop'}
     if inv is not None:
@@ -487,6 +533,8 @@ def inject(sim, inv):
         SigProbe('bad', x_esig=esig).connect(**kwargs)
     elif cls == 'extevent_cblock':
         edzed.ExtEvent(c)
+    elif cls == 'late_unknown':
+        pass        # created after the explicit finalize(), see make_late() in execute()
     else:
         raise PlanError(f"unknown invalid class {cls}")
 
@@ -1063,6 +1111,62 @@ def execute(plan, trace=False):
                     return False    # 'bad' sends a 'put' to it while the circuit starts
             return True
 
+        late = []       # (description, Event object) created after the explicit finalize()
+
+        def make_late():
+            for le in plan.get('late_events') or []:
+                ev = {'dest': le['dest'], 'etype': le['etype'], 'byname': True,
+                      'filters': le.get('filters', [])}
+                if le['src'] not in sim.blocks or le['dest'] not in sim.blocks:
+                    raise PlanError('late event of a missing block')
+                evobj = sim.make_event(le['src'], ev)   # also listed in sim.events: its dest and
+                late.append((le, evobj))                # control blocks are checked from now on
+                chk.evmap[le['etype']] = (le['src'], ev)
+                run.fired('reach:event_created_after_explicit_finalize')
+            if inv is not None and inv['cls'] == 'late_unknown':
+                var = inv['variant']
+                rec = spec['recorders'][0]
+                nii = getattr(edzed, 'NotIfInitialized', None) or edzed.IfNotIitialized
+                if var == 0:
+                    obj = edzed.Event('nosuch')
+                elif var == 1:
+                    obj = edzed.Event(rec, 'x', efilter=edzed.IfOutput('nosuch'))
+                elif var == 2:
+                    obj = edzed.Event(rec, 'x', efilter=edzed.DataEdit.add_output('k', 'nosuch'))
+                elif var == 3:
+                    obj = edzed.Event(rec, 'x', efilter=nii('nosuch'))
+                elif var == 4:
+                    obj = edzed.Event(inv['c'], 'put')      # a CBlock, by name
+                else:
+                    obj = edzed.Event(rec, 'x', efilter=nii(inv['c']))
+                late.append((None, obj))
+                run.fired('reach:invalid_reference_created_after_explicit_finalize')
+
+        def send_late(k):
+            for le, evobj in late:
+                if le is None or le['k'] != k:
+                    continue
+                expected = True
+                for flt in le.get('filters', []):
+                    if flt[0] == 'ifo' and not chk.named(flt[-2], flt[-1]).output:
+                        expected = False
+                n0 = len(sim.rec_log)
+                try:
+                    res = evobj.send(sim.blocks[le['src']], value=le['value'])
+                except Exception as err:    # pylint: disable=broad-except
+                    run.violate('C15/late-event/send-failed',
+                                f"event to '{le['dest']}' created after finalize(): send() raised "
+                                f"{cerr(err)}")
+                    continue
+                got = sum(1 for r in sim.rec_log[n0:] if r[1] == le['etype'])
+                run.log('late-send', le['etype'], bool(res), got)
+                run.beh('late-send', expected)
+                if bool(res) != expected or got != int(expected):
+                    run.violate('C15/late-event/delivery',
+                                f"event {le['etype']} created after finalize() with filters "
+                                f"{le.get('filters')}: send() returned {res!r}, delivered {got}x, "
+                                f"expected {'delivery' if expected else 'rejection'}")
+
         def do_second(how):
             """A second stop request; only interesting while the clean-up is in progress."""
             simtask = info['simtask']
@@ -1185,6 +1289,7 @@ def execute(plan, trace=False):
                     if state['valid']:
                         chk.check_structure('finalized', False)
                     do_mods('finalized')
+                    make_late()
             simtask = asyncio.create_task(circuit.run_forever())
             info['simtask'] = simtask
             sec = plan.get('second_stop')
@@ -1247,6 +1352,8 @@ def execute(plan, trace=False):
                 if not circuit.is_ready():
                     break
                 do_mods('running', k)
+                if state['valid']:
+                    send_late(k)
                 kind = op['op']
                 if kind == 'send':
                     if state['valid']:
